@@ -66,6 +66,8 @@ fn open_and_lock_exclusively(path: &Path) -> io::Result<File> {
         .create(true)
         .truncate(true)
         .open(path)?;
+    #[cfg(feature = "verif_hooks")]
+    crate::verif::point("lock.after_open");
     file.try_lock_exclusive()?;
 
     #[cfg(unix)]
